@@ -53,6 +53,11 @@ const (
 	Missing     // 404 on the request itself (e.g. the API group is being re-registered), request not applied
 )
 
+// EnumFaults is what the fault enumerations iterate over: the six classic outcomes plus two
+// further classes of "request not applied" errors that code may single out (a kind that is
+// momentarily not served, a 503).
+var EnumFaults = []Outcome{Conflict, ServerError, Timeout, CrashBefore, CrashAfter, ErrorAfter, NotServed, Unavailable}
+
 // DiscoveryFaults are the outcomes of an API server whose discovery / aggregation layer hiccups.
 var DiscoveryFaults = []Outcome{NotServed, Unavailable, Missing}
 
@@ -170,6 +175,8 @@ type KindInfo struct {
 type World struct {
 	mu     sync.Mutex
 	Scheme *runtime.Scheme
+	// actorLag: lagging-reader functions applied to clients created for an actor
+	actorLag map[string]func(schema.GroupKind) (int64, bool)
 
 	objs  map[Key]map[string]any
 	hist  map[Key][]version
@@ -432,6 +439,23 @@ func (w *World) remove(k Key) {
 }
 
 // at returns the object as of global resource version rv (for lagging readers).
+// lagRV turns a lag into the resource version a lagging read is served at: behind >= 0 means
+// that many writes ago, behind < 0 means frozen at the absolute resource version -behind (a
+// cache that has not caught up with anything since).
+func (w *World) lagRV(behind int64) int64 {
+	if behind < 0 {
+		return -behind
+	}
+	return w.rv - behind
+}
+
+// RV returns the store's current resource version.
+func (w *World) RV() int64 {
+	w.mu.Lock()
+	defer w.mu.Unlock()
+	return w.rv
+}
+
 func (w *World) at(k Key, rv int64) map[string]any {
 	var cur map[string]any
 	for _, v := range w.hist[k] {
